@@ -46,6 +46,7 @@ def parseOp? (line : String) : Option Op :=
   | ["compact"] => some .compact
   | ["cleantomb"] => some .cleantomb
   | ["reopen"] => some .reopen
+  | ["reopen", _] => some .reopen
   | ["q", a, b] => do pure (.q (← a.toInt?) (← b.toInt?))
   | ["win"] => some .win
   | _ => none
@@ -82,6 +83,15 @@ def model (lines : List String) : List String :=
       match parseCfg? l with
       | some c => "ok" :: go { cfg := c } rest
       | none =>
+        match toks l with
+        | ["reopen", oracle] =>
+          -- `reopen <s:mmMaxTime,…|->`: restart with the m-mapped-chunk oracle read from the real head
+          let mm : List (Nat × Int) := if oracle = "-" then [] else
+            (oracle.splitOn ",").filterMap fun p => match p.splitOn ":" with
+              | [a, b] => do pure (← a.toNat?, ← b.toInt?)
+              | _ => none
+          "ok" :: go { d.reopenWith mm with app := none } rest
+        | _ =>
         match parseOp? l with
         | some op => let (d', o) := d.step op; renderOut o :: go d' rest
         | none => "bad-op" :: go d rest
